@@ -496,6 +496,70 @@ def _derived_discr_eq(ix, callee):
     return res
 
 
+def derived_variant_test(ix, e):
+    """For `<T as PartialEq>::eq(a, b)` / `ne` where T is an enum of the crate whose PartialEq is derived (the body carries
+    the span of the derive attribute) and one side is a constant field-less variant V: (the other side, V, is_ne).
+    Equality with a field-less variant holds exactly when the discriminants agree, also when other variants carry data."""
+    if not (isinstance(e, tuple) and e[0] == "call" and isinstance(e[1], str) and len(e[2]) == 2):
+        return None
+    m = re.match(r"^<(.+) as std::cmp::PartialEq>::(eq|ne)$", e[1])
+    if not m:
+        return None
+    ty, which = m.group(1), m.group(2)
+    a = ix.adts.get(ty)
+    eqb = ix.bodies.get("<%s as std::cmp::PartialEq>::eq" % ty)
+    if a is None or a["kind"] != "Enum" or eqb is None:
+        return None
+    derived = eqb.line_lo == eqb.line_hi and all(st.get("exp") for blk in eqb.blocks[:1] for st in blk.stmts)
+    if not derived or (which == "ne" and ("<%s as std::cmp::PartialEq>::ne" % ty) in ix.bodies):
+        return None
+    fieldless = {v["name"] for v in a["variants"] if not v["fields"]}
+    x, y = mir.strip_refs(e[2][0]), mir.strip_refs(e[2][1])
+    for p, q in ((x, y), (y, x)):
+        if p[0] == "agg" and p[1] == ty and p[2] in fieldless and not p[3]:
+            return q, p[2], which == "ne"
+    return None
+
+
+def variant_test_edges(ix, body, adt_path, variant):
+    """{test block: set of successor blocks taken exactly when the tested value is `variant`} over the three spellings:
+    `match x { V => .. }` (a discriminant switch, possibly setting a flag that is tested next: the `matches!` lowering),
+    and `x == T::V` through a derived PartialEq."""
+    sym = mir.Sym(body, ix)
+    adt = ix.adts.get(adt_path)
+    if adt is None:
+        return {}
+    idx = [int(v["discr"]) for v in adt["variants"] if v["name"] == variant]
+    out = {}
+    for blk in body.blocks:
+        if blk.cleanup or blk.term["k"] != "switch":
+            continue
+        t = blk.term
+        e = sym.operand(t["discr"])
+        ty = discr_type_of_switch(body, blk.idx)
+        if e[0] == "discr" and idx and ty and ty.lstrip("&").replace("mut ", "").strip() == adt_path and any(a[0] == idx[0] for a in t["arms"]):
+            out[blk.idx] = {a[1] for a in t["arms"] if a[0] == idx[0]}
+            continue
+        if t.get("discr_ty") == "bool":
+            fl = resolve_flag(ix, body, sym, t["discr"])
+            if fl is not None and fl[1].get(True) == {variant}:
+                f_, tr_ = switch_edges(t)
+                out[blk.idx] = set(tr_)
+                out.pop(fl[2], None)  # the discriminant switch only sets the flag
+                continue
+            neg = False
+            x = e
+            while isinstance(x, tuple) and x[0] == "un" and x[1] == "Not":
+                x = x[2]
+                neg = not neg
+            dv = derived_variant_test(ix, x)
+            if dv is not None and dv[1] == variant:
+                f_, tr_ = switch_edges(t)
+                is_true_edge = (not dv[2]) != neg
+                out[blk.idx] = set(tr_ if is_true_edge else f_)
+    return out
+
+
 def _eq_as_discr(ix, e, vals):
     if not (isinstance(e, tuple) and e[0] == "call" and isinstance(e[1], str) and len(e[2]) == 2):
         return None
